@@ -264,6 +264,9 @@ var (
 )
 
 func setup() {
+	// a fresh registry per scenario: the objects registered by an earlier scenario of the same worker process may
+	// have been collected, and the allocator hands their addresses to unrelated values
+	known = map[uintptr]string{}
 	tmpDir, _ = os.MkdirTemp("", "c19")
 	for i := 0; i < 2; i++ {
 		cfgFile[i] = filepath.Join(tmpDir, fmt.Sprintf("ssh_config_%d", i))
@@ -559,6 +562,45 @@ func scenarios(tier string) []sched.Scenario {
 							}
 							checkList(w, ctor, base, []appl{{a, vv[0]}, {b, vv[1]}}, "pair")
 						}
+					}
+				}
+			}
+		}})
+		out = append(out, sched.Scenario{Name: "subslice/" + ctor, Run: func(w *sched.W) {
+			// the caller passes a prefix of a longer option list (a "forall subsets" case): the constructor must not
+			// touch the rest of the caller's list, and a driver built from the whole list afterwards gets every option
+			setup()
+			defer os.RemoveAll(tmpDir)
+			sp := specs()
+			by := map[string]optSpec{}
+			for _, s := range sp {
+				by[s.name] = s
+			}
+			names := []string{"AuthUsername", "Port", "TermWidth", "TimeoutOps", "ReadDelay", "AuthPassword"}
+			for k := 1; k < len(names); k++ {
+				all := make([]util.Option, 0, len(names)+2)
+				var list []appl
+				for _, n := range names {
+					all = append(all, by[n].mk(1))
+					list = append(list, appl{by[n], 1})
+				}
+				cse := fmt.Sprintf("subslice ctor=%s prefix=%d of %v", ctor, k, names)
+				w.Case("", cse)
+				before := reflect.ValueOf(all[k]).Pointer()
+				if b := construct(ctor, all[:k]); b.err != nil {
+					w.Violate("c19:construction-failed", cse+": "+b.err.Error(), cse)
+					continue
+				}
+				if reflect.ValueOf(all[k]).Pointer() != before {
+					w.Violate("c19:constructor-overwrites-callers-option-list", cse+": element "+fmt.Sprint(k)+" of the caller's option list was replaced while building a driver from its first "+fmt.Sprint(k)+" elements", cse)
+				}
+				// the whole list still configures a driver as if nothing had happened
+				def := construct("generic", nil)
+				got := construct("generic", all)
+				if def.err == nil && got.err == nil {
+					want, ignore := expect("generic", def.s, list, map[string]snap{})
+					if d := diffSnap(got.s, want, ignore); d != "" {
+						w.Violate("c19:constructor-overwrites-callers-option-list", cse+": a generic driver built from the whole list afterwards has "+d, cse)
 					}
 				}
 			}
